@@ -75,7 +75,13 @@ class Logger:
 
     def log_node(self, node: Any) -> str:
         """Log fcp node."""
-        lines = self.sources[Path(node.meta.filename).name].split("\n")
+        filename = Path(node.meta.filename)
+        # Sources are also registered under their full path: modules in different
+        # directories may share a base name.
+        source = self.sources.get(str(filename.resolve()), None)
+        if source is None:
+            source = self.sources[filename.name]
+        lines = source.split("\n")
         return self.log_location(
             lines[node.meta.line - 1],
             node.meta.line,
